@@ -1,6 +1,6 @@
 (* C10 property theorems.  Only statements closed by [exact]; each followed by Print Assumptions.
    All are about the definitions Harness.v evaluates against the implementation (Model.v, Verbs.v). *)
-From Miller Require Import C10.Model C10.Verbs C10.Spec C10.ProofsGroup C10.ProofsPctl C10.ProofsAcc C10.Proofs.
+From Miller Require Import C10.Model C10.Verbs C10.Spec C10.ProofsGroup C10.ProofsPctl C10.ProofsAcc C10.Proofs C10.ProofsMode C10.ProofsMinMax.
 From Coq Require Import Permutation.
 Open Scope char_scope.
 
@@ -110,6 +110,46 @@ Theorem C10_meaneb_equals_definition :
 Proof. exact meaneb_stream_eq_def. Qed.
 Print Assumptions C10_meaneb_equals_definition.
 
+(* min / max of ints stay ints: the exact extreme value, printed as one of the input texts *)
+Theorem C10_min_of_ints_stays_int :
+  forall vs, vs <> [] -> all_ints vs ->
+    exists z t, run_acc false AMin vs = OInt z /\ In t vs /\ classify t = NInt z
+      /\ (forall v z', In v vs -> classify v = NInt z' -> (z <= z')%Z).
+Proof. exact min_ints_stay_int. Qed.
+Print Assumptions C10_min_of_ints_stays_int.
+
+Theorem C10_max_of_ints_stays_int :
+  forall vs, vs <> [] -> all_ints vs ->
+    exists z t, run_acc false AMax vs = OInt z /\ In t vs /\ classify t = NInt z
+      /\ (forall v z', In v vs -> classify v = NInt z' -> (z' <= z)%Z).
+Proof. exact max_ints_stay_int. Qed.
+Print Assumptions C10_max_of_ints_stays_int.
+
+(* counts by value text (mode, antimode, distinct_count, count-distinct): first-seen order, number of occurrences *)
+Theorem C10_counts_by_value_equal_occurrences :
+  forall vs, fold_left (fun m v => cm_incr v m) vs []
+    = map (fun k => (k, Z.of_nat (List.length (members (fun x : bytes => Some x) k vs)))) (first_keys (fun x : bytes => Some x) vs).
+Proof. exact counts_map_entries. Qed.
+Print Assumptions C10_counts_by_value_equal_occurrences.
+
+(* mode: a text with the largest number of occurrences; among ties the first seen wins *)
+Theorem C10_mode_is_first_seen_of_most_frequent :
+  forall vs, vs <> [] ->
+    let m := map (fun k => (k, Z.of_nat (List.length (members (fun x : bytes => Some x) k vs)))) (first_keys (fun x : bytes => Some x) vs) in
+    exists k c, run_acc false AMode vs = OText k /\ is_first_max m k c.
+Proof. exact mode_accumulator_spec. Qed.
+Print Assumptions C10_mode_is_first_seen_of_most_frequent.
+
+Theorem C10_antimode_tie_break_first_seen :
+  forall m, m <> [] -> exists k c, antimode_of m = OText k /\ is_first_min m k c.
+Proof. exact antimode_is_first_of_the_least_frequent. Qed.
+Print Assumptions C10_antimode_tie_break_first_seen.
+
+Theorem C10_distinct_count_equals_number_of_distinct_texts :
+  forall vs, run_acc false ADistinctCount vs = OInt (Z.of_nat (List.length (first_keys (fun x : bytes => Some x) vs))).
+Proof. exact distinct_count_spec. Qed.
+Print Assumptions C10_distinct_count_equals_number_of_distinct_texts.
+
 (* ---- percentiles *)
 (* non-interpolated: for EVERY p (also outside 0..100) the index is inside the data; inside 0..100 it is
    floor(p*n/100) with p = 100 pulled back to the last element; monotone in p *)
@@ -137,6 +177,11 @@ Theorem C10_sorted_data_is_a_permutation : forall l, Permutation (sort_vals l) l
 Proof. exact sort_vals_perm. Qed.
 Print Assumptions C10_sorted_data_is_a_permutation.
 
+(* the data the index is applied to is sorted (non-decreasing in the keeper's collation: numbers by value, before strings) *)
+Theorem C10_sorted_data_is_sorted : forall l, Sorted.LocallySorted val_le (sort_vals l).
+Proof. exact sort_vals_sorted. Qed.
+Print Assumptions C10_sorted_data_is_sorted.
+
 (* interpolated: inside 0..100 both indices exist ... *)
 Theorem C10_interpolated_percentile_indices_in_range :
   forall p sorted, (0 <= p)%Q -> (p <= 100)%Q -> sorted <> [] -> pctl_interp p sorted <> OPanic.
@@ -160,5 +205,7 @@ Example C10_nonvacuous :
   /\ filter (has_key (group_key [B "a"])) rs <> rs
   /\ pctl_index (Qmake 25 1) 5 = 1%Z /\ pctl_index (Qmake 100 1) 5 = 4%Z /\ pctl_index (Qmake 250 1) 5 = 4%Z
   /\ pctl_nonint (Qmake 50 1) (sort_vals [B "5"; B "1"; B "3"; B "2"]) = OInt 3
-  /\ nodupb (map req_text [(ACount, []); (APctl (Qmake 50 1), B "median")]) = true.
+  /\ nodupb (map req_text [(ACount, []); (APctl (Qmake 50 1), B "median")]) = true
+  /\ run_acc false AMode [B "3"; B "4"; B "4"; B "3"; B "5"] = OText (B "3")
+  /\ run_acc false AMin [B "7"; B "-2"; B "11"] = OInt (-2).
 Proof. vm_compute. repeat split; try reflexivity; try discriminate; try lia. Qed.
